@@ -61,6 +61,19 @@ partial def stepFwd (toks : List String) : Option String :=
         | .passed _ => "err"
       some s!"list={joinOrDash (fs.map fun f => toHexOrDash (fwString f))} get={getS} calls={joinOrDash (calls.map toString)} ret={retS} fcalls={joinOrDash (fcalls.map toString)} fret={fretS}"
     | _, _ => some "bad-op"
+  | "fwdseq" :: ca :: names :: vals =>
+    -- several names resolved one after the other on ONE forwarder list: every one goes where it would go alone
+    if ca ≠ "0" ∧ ca ≠ "1" then some "bad-op" else
+    match (names.splitOn ",").mapM (fun h => if h = "-" then some [] else ofHex h), parseHexList vals with
+    | some ns, some vals =>
+      let conf := number (setAll vals)
+      let fs := if ca = "1" then withCatchAll conf conf.length else conf
+      let outs := ns.map fun name =>
+        let (_, calls) := resolve (fun u _ => 1000 + u) fs name
+        let c := joinOrDash (calls.map toString)
+        c ++ ":" ++ c
+      some s!"seq={"/".intercalate outs}"
+    | _, _ => some "bad-op"
   | _ => none
 
 end NV
